@@ -25,7 +25,8 @@ RULE = ('CSV files built by construction: 2-5 columns; (minibatch_size m, subsam
         'valid rows is k*m + t with t from the boundary set {0,1,m-1,1023,1024,1025,1026} (large-m regime, m in 1026..1500) or '
         'arbitrary t < m (small-m regime, m in 1..60, many batches, tail never used); malformed rows (too few / too many fields, '
         'empty line, single field) at generated positions incl. first/last, on and off the subsampling grid; quoted cells with '
-        'commas. Heuristic MI-numba-randomized or max-value-coverage, target-only or pairwise, annotated or plain names, '
+        'commas; data rows whose text equals the header line. Heuristic MI-numba-randomized, max-value-coverage or Constant (for which the '
+        'checkpoint clauses are not asserted: the code only checkpoints scoring heuristics), target-only or pairwise, annotated or plain names, '
         'interaction order 1 or 2 (constructed features named "a AND b"). '
         'Non-trivial = >=2 batches, or a tail decision within 2 of 1024, or >=1 malformed row on the subsampling grid.')
 ASSUMPTIONS = ['per-batch triplets of the model are obtained by applying the batch scorer (compute_batch_ranking) to each MODEL batch '
@@ -54,7 +55,8 @@ def case_strategy(draw):
             draw(st.sampled_from(['first', 'last', 'rand'])), draw(st.integers(0, 10**6))] for _ in range(nbad)]
     return {'ncols': ncols, 'm': m, 's': s, 'k': k, 't': t, 'bad': bad, 'seed': draw(st.integers(0, 2**32 - 1)),
             'trail': draw(st.integers(0, 3)), 'offgrid_bad': draw(st.booleans()),
-            'heuristic': draw(st.sampled_from(['MI-numba-randomized', 'max-value-coverage'])),
+            'heuristic': draw(st.sampled_from(['MI-numba-randomized', 'MI-numba-randomized', 'max-value-coverage', 'Constant'])),
+            'header_rows': draw(st.lists(st.integers(0, 10**6), max_size=2)) if draw(st.integers(0, 3)) == 0 else [],
             'pairwise': draw(st.booleans()), 'annot': draw(st.booleans()), 'label_pos': draw(st.integers(0, ncols - 1)),
             'order': draw(st.sampled_from([1, 1, 2])) if regime == 'small' else 1}
 
@@ -88,6 +90,9 @@ def build_lines(case):
             return ''
         return 'lonely' if ncols != 1 else 'a,b'
     selected = [render(valid_row()) for _ in range(V)]
+    for r in case.get('header_rows', []):
+        if selected:
+            selected[r % len(selected)] = render(cols)     # a well-formed data row whose values happen to be the column names
     for kind, where, r in case['bad']:
         pos = 0 if where == 'first' else len(selected) if where == 'last' else (r % (len(selected) + 1))
         selected.insert(pos, malformed(kind))
@@ -187,6 +192,9 @@ def oracle(case, rec):
             'tail>1024' if case['t'] > 1024 else 'tail==1024' if case['t'] == 1024 else 'tail<1024')
     if on_grid_bad:
         rec.cls('malformed-on-grid')
+    if case.get('header_rows'):
+        rec.cls('data-row-equal-to-header')
+    rec.cls('h=' + case['heuristic'])
     tmp = tempfile.mkdtemp(prefix='c08-')
     old_cwd = os.getcwd()
     orig_cbr = cr.compute_batch_ranking
@@ -249,14 +257,14 @@ def oracle(case, rec):
             raise Violation(f'aggregated scores differ from the per-pair median over {len(batches)} batches: '
                             f'{_first_diff(got, expected)}', kind='C08/median')
         # checkpoints: at the start of batch j+1 the file holds the median table of batches 1..j
-        for j, ck in enumerate(pool.checkpoints):
+        for j, ck in enumerate(pool.checkpoints if case['heuristic'] != 'Constant' else []):
             exp_j = median_table(per_batch[:j]) if j > 0 else None
             if j == 0:
                 continue   # whatever a previous run left is not constrained
             if not same_table(ck, exp_j):
                 raise Violation(f'checkpoint read at the start of batch {j + 1} is not the median aggregation of batches 1..{j}: '
                                 f'{_first_diff(ck, exp_j)}', kind='C08/checkpoint')
-        if batches and not same_table(final_ckpt, expected):
+        if batches and case['heuristic'] != 'Constant' and not same_table(final_ckpt, expected):
             raise Violation(f'checkpoint after the last batch is not the median aggregation of all {len(batches)} batches: '
                             f'{_first_diff(final_ckpt, expected)}', kind='C08/checkpoint')
         # ---- phase 2: the ranking task in-process with the owned pool -----------------------------
